@@ -821,6 +821,30 @@ func (e *Enc) heldTerm(st *State, mu *Val) string {
 func (e *Enc) lockOp(key string, c *ssa.CallCommon, args []*Val, pos token.Pos, st *State, retT types.Type) *Val {
 	mu := args[0]
 	hk, idx := e.heldLoc(mu)
+	// declared lock order: acquiring the FIRST mutex of an order while a SECOND one is held
+	private := false
+	if owner, _, named, mf := ownerOfMutex(mu); named != "" {
+		private = owner != nil && len(owner.L) > 0 && e.allocRefs[owner.L[0]] && !e.published[owner.L[0]]
+		if !strings.HasSuffix(key, "Unlock") {
+			for _, lo := range e.DB.LockOrders {
+				if lo.Pkg+"."+lo.First != named+"."+mf {
+					continue
+				}
+				if t, ok := st.ghost["b:anyheld:"+lo.Pkg+"."+lo.Second]; ok {
+					e.oblige("lockorder", fmt.Sprintf("lockorder.%d", e.nextOrd("lockorder")), "(not "+t+")", pos,
+						"lock order "+lo.First+" < "+lo.Second+": "+lo.First+" is acquired while a "+lo.Second+" may be held (deadlock with a goroutine that takes them in the declared order)")
+				}
+			}
+		}
+	}
+	isSecond := func(named, mf string) bool {
+		for _, lo := range e.DB.LockOrders {
+			if lo.Pkg+"."+lo.Second == named+"."+mf {
+				return true
+			}
+		}
+		return false
+	}
 	switch {
 	case strings.HasSuffix(key, ".TryLock") || strings.HasSuffix(key, ".TryRLock"):
 		// acquires the mutex iff it returns true; what the mutex protects is forgotten
@@ -840,7 +864,10 @@ func (e *Enc) lockOp(key string, c *ssa.CallCommon, args []*Val, pos token.Pos, 
 		e.onAcquire(mu, st, pos)
 		e.heapSet(st, hk, sStore(e.heapGet(st, hk), idx, "true"))
 		if _, _, named, mf := ownerOfMutex(mu); named != "" {
-			st.ghost["b:anyheld:"+named+"."+mf] = "true"
+			// (the mutex of an object still private to this call cannot be part of a lock cycle)
+			if !(private && isSecond(named, mf)) {
+				st.ghost["b:anyheld:"+named+"."+mf] = "true"
+			}
 		}
 	case strings.HasSuffix(key, ".Unlock") || strings.HasSuffix(key, ".RUnlock"):
 		e.onRelease(mu, st, pos)
